@@ -9,7 +9,8 @@ EXTENDS Integers, Sequences, FiniteSets, TLC
 
 CONSTANTS Objs, Intervals, MaxTicks, MaxOps,
           CompIdx,   \* TRUE: "if (index <= heart_beat_index) heart_beat_index--" present
-          CompToDo   \* TRUE: "if (index < num_hb_to_do) num_hb_to_do--" present
+          CompToDo,  \* TRUE: "if (index < num_hb_to_do) num_hb_to_do--" present
+          IsolateErrors  \* TRUE: an error ends the failing call only (as written); FALSE: it ends the tick (the behaviour before the fix)
 
 VARIABLES hbs,     \* sequence of [ob, ticks, ttb]
           idx, todo, phase, cur, nticks, nops,
@@ -71,7 +72,7 @@ TickStart ==
 
 \* end of the loop: counting rule for the objects nobody touched
 EndChecks == IF \E o \in Objs : /\ Enabled(o) /\ o \notin called /\ o \notin touched
-                               /\ pre[o] > 0 /\ ~err /\ pre[o] <= 1
+                               /\ pre[o] > 0 /\ pre[o] <= 1        \* (also in a tick in which a heart beat failed)
              THEN "missed" ELSE bad
 
 Advance(i, td) ==   \* if (++heart_beat_index == num_hb_to_do) break;
@@ -105,11 +106,17 @@ HBReturns ==
             ELSE IF phase' = "idle" THEN EndChecks ELSE bad
   /\ UNCHANGED <<hbs, nticks, nops, alive, pre, called, touched, err>>
 
-\* error(): error_handler() does set_heart_beat(current_heart_beat, 0), longjmp to backend()
+\* error(): error_handler() does set_heart_beat(current_heart_beat, 0) and longjmps to the error context that
+\* call_heart_beat() keeps around each call: the round goes on behind the failing entry (IsolateErrors; HBReturns
+\* follows).  Before the fix 'heart beat error isolation' the jump went to backend() and the tick ended there.
 HBError ==
-  /\ phase = "inhb"
-  /\ RemoveHB(cur) /\ cur' = None /\ err' = TRUE /\ phase' = "idle"
-  /\ UNCHANGED <<nticks, nops, alive, pre, called, touched, bad>>
+  /\ phase = "inhb" /\ cur # None
+  /\ RemoveHB(cur) /\ cur' = None /\ err' = TRUE
+  /\ IF IsolateErrors THEN phase' = "inhb" /\ nops' = MaxOps /\ bad' = bad
+     ELSE /\ phase' = "idle" /\ nops' = nops
+          /\ bad' = IF \E o \in Objs \ {cur} : Enabled(o) /\ o \notin called /\ o \notin touched /\ pre[o] > 0 /\ pre[o] <= 1
+                    THEN "missed" ELSE bad
+  /\ UNCHANGED <<nticks, alive, pre, called, touched>>
 
 Next == \/ \E o \in Objs, n \in Intervals : SetHB(o, n)
         \/ \E o \in Objs : Disable(o) \/ Destruct(o)
